@@ -100,6 +100,7 @@ def _batch(args):
     except Exception:
         pass
     mod = load_prop_bootstrapped(pid)
+    cover = _cover_start()
     outs = []
     for s in seeds:
         sc = mod.generate(s, tier)
@@ -113,7 +114,49 @@ def _batch(args):
             slim["trace"] = o["trace"]
         outs.append(slim)
     faulthandler.cancel_dump_traceback_later()
+    _cover_stop(cover, pid)
     return outs
+
+
+# development aid (selftest/cover.py): which rpylib lines do the worlds of a check execute?  Off unless VERIF_COVER names a
+# directory; uses sys.monitoring, so the simulated code is not changed and the event log is unaffected.
+_COVER_TOOL = 3
+
+
+def _cover_start():
+    out_dir = os.environ.get("VERIF_COVER")
+    if not out_dir:
+        return None
+    mon = sys.monitoring
+    root = os.path.join(os.path.realpath(os.environ.get("VERIF_REPO", "/repo")), "rpylib") + os.sep
+    hits = set()
+
+    def on_line(code, line):
+        fn = code.co_filename
+        if fn.startswith(root):
+            hits.add((fn[len(root):], line))
+        return mon.DISABLE
+
+    try:
+        mon.use_tool_id(_COVER_TOOL, "verif-cover")
+    except ValueError:
+        pass
+    mon.register_callback(_COVER_TOOL, mon.events.LINE, on_line)
+    mon.set_events(_COVER_TOOL, mon.events.LINE)
+    return (out_dir, hits)
+
+
+def _cover_stop(cover, pid):
+    if not cover:
+        return
+    out_dir, hits = cover
+    sys.monitoring.set_events(_COVER_TOOL, 0)
+    sys.monitoring.restart_events()
+    import uuid
+
+    os.makedirs(out_dir, exist_ok=True)
+    with open(os.path.join(out_dir, f"{pid}-{uuid.uuid4().hex}.json"), "w") as f:
+        json.dump(sorted(hits), f)
 
 
 def load_prop_bootstrapped(pid):
